@@ -50,6 +50,12 @@ func replayMode(r *common.Run, sk *sink) {
 		runCompactionBack(r, sk, c, r.Rand("compaction-back", c), r.SubSeed("compaction-back-seed", c))
 		r.Flush()
 	}
+	// directed: two followers of an on-disk shard lag beyond the compacted log and are reconnected
+	// together (progress.go; verdict in ticks of their own clocks)
+	for _, c := range r.MyCases(r.Pick(4, 32)) {
+		runTwoLaggingStreams(r, sk, c, r.Rand("two-lagging-streams", c), r.SubSeed("two-lagging-streams-seed", c))
+		r.Flush()
+	}
 }
 
 // runCompactionBack: one replica set, a writer, and a user who requests snapshots in quick
